@@ -47,24 +47,27 @@ type RunSpec struct {
 	UnwindPolicy  string            `json:"unwind_policy"` // "obligation:<id>": a loop that can exceed the bound is a violation (non-termination)
 	ExpectSat     []string          `json:"expect_sat"`    // obligation ids that are informational witnesses
 	Informational []string          `json:"informational"`
+	TwoRun        string            `json:"two_run"`      // obligation id prefix: run the harness in two-run non-interference mode (sym/tworun.go)
+	TwoRunOnly    bool              `json:"two_run_only"` // keep only the two-run obligations
 }
 
 type Spec struct {
-	Property    string         `json:"property"`
-	PackageDir  string         `json:"package_dir"`
-	HarnessDirs []string       `json:"harness_dirs"`
-	Level       string         `json:"level"`
-	Regions     []lift.Region  `json:"regions"`
-	Stubs       []StubSpec     `json:"stubs"`
-	Include     []string       `json:"include"` // further spec files (other packages) whose runs belong to this property
-	DecSegs     bool           `json:"dec_segs"`
-	LockRules   []sym.LockRule `json:"lock_rules"`
-	PruneIf     bool           `json:"prune_branches"`
-	MaxSymLen   int            `json:"max_sym_len"`
-	Runs        []RunSpec      `json:"runs"`
-	Assumptions []string       `json:"assumptions"`
-	Outside     []string       `json:"outside"`
-	Trusted     []string       `json:"trusted_base"`
+	Property      string         `json:"property"`
+	PackageDir    string         `json:"package_dir"`
+	HarnessDirs   []string       `json:"harness_dirs"`
+	Level         string         `json:"level"`
+	Regions       []lift.Region  `json:"regions"`
+	Stubs         []StubSpec     `json:"stubs"`
+	Include       []string       `json:"include"`         // further spec files (other packages) whose runs belong to this property
+	IncludeTwoRun []string       `json:"include_two_run"` // quick runs of other properties' specs, executed in two-run mode only
+	DecSegs       bool           `json:"dec_segs"`
+	LockRules     []sym.LockRule `json:"lock_rules"`
+	PruneIf       bool           `json:"prune_branches"`
+	MaxSymLen     int            `json:"max_sym_len"`
+	Runs          []RunSpec      `json:"runs"`
+	Assumptions   []string       `json:"assumptions"`
+	Outside       []string       `json:"outside"`
+	Trusted       []string       `json:"trusted_base"`
 }
 
 // StubSpec replaces a function of the package under test by a symbolic input
@@ -141,6 +144,7 @@ type violation struct {
 }
 
 var solverSem = make(chan struct{}, 10)
+var instSem = make(chan struct{}, 8)
 
 func loadFindings() FindingsFile {
 	var ff FindingsFile
@@ -263,7 +267,6 @@ func mainCheck(a []string) int {
 	}
 	results := make([]*instResult, len(insts))
 	var wg sync.WaitGroup
-	instSem := make(chan struct{}, 8)
 	var ssaMu sync.Mutex
 	for i, in := range insts {
 		wg.Add(1)
@@ -277,7 +280,16 @@ func mainCheck(a []string) int {
 	wg.Wait()
 	// included specs (harnesses in other packages of the repository)
 	for _, inc := range spec.Include {
-		sub, err := runIncluded(inc, spec.Property, tier, only, known)
+		sub, err := runIncluded(inc, spec.Property, tier, only, known, false)
+		if err != nil {
+			fmt.Println("INCLUDE ERROR:", inc, err)
+			results = append(results, &instResult{name: "include:" + inc, err: err, spec: &RunSpec{}})
+			continue
+		}
+		results = append(results, sub...)
+	}
+	for _, inc := range spec.IncludeTwoRun {
+		sub, err := runIncluded(inc, spec.Property, tier, only, known, true)
 		if err != nil {
 			fmt.Println("INCLUDE ERROR:", inc, err)
 			results = append(results, &instResult{name: "include:" + inc, err: err, spec: &RunSpec{}})
@@ -401,7 +413,7 @@ func mainCheck(a []string) int {
 }
 
 // runIncluded loads another spec file and runs its instances as part of property `prop`.
-func runIncluded(name, prop, tier, only string, known map[string]bool) ([]*instResult, error) {
+func runIncluded(name, prop, tier, only string, known map[string]bool, twoRun bool) ([]*instResult, error) {
 	b, err := os.ReadFile(filepath.Join(verifRoot, "specs", name+".json"))
 	if err != nil {
 		return nil, err
@@ -426,7 +438,11 @@ func runIncluded(name, prop, tier, only string, known map[string]bool) ([]*instR
 	if err != nil {
 		return nil, err
 	}
-	var out []*instResult
+	type job struct {
+		r *RunSpec
+		c []int64
+	}
+	var jobs []job
 	var ssaMu sync.Mutex
 	for ri := range spec.Runs {
 		r := &spec.Runs[ri]
@@ -435,6 +451,14 @@ func runIncluded(name, prop, tier, only string, known map[string]bool) ([]*instR
 		}
 		if only != "" && !strings.Contains(r.Harness+"/"+r.Name, only) {
 			continue
+		}
+		if twoRun {
+			if r.Tier == "thorough" || r.Mode == "B" {
+				continue
+			}
+			r.TwoRun, r.TwoRunOnly, r.Replay, r.NoCosim = prop+".two_run", true, "interpreter", true
+			r.Name = name + "/" + r.Name
+			r.ExpectSat, r.Informational = nil, nil
 		}
 		combos := [][]int64{{}}
 		for _, choices := range r.Args {
@@ -447,9 +471,21 @@ func runIncluded(name, prop, tier, only string, known map[string]bool) ([]*instR
 			combos = next
 		}
 		for _, c := range combos {
-			out = append(out, runInstance(ld, spec, r, c, known, &ssaMu))
+			jobs = append(jobs, job{r, c})
 		}
 	}
+	out := make([]*instResult, len(jobs))
+	var wg sync.WaitGroup
+	for i := range jobs {
+		wg.Add(1)
+		go func(i int) {
+			defer wg.Done()
+			instSem <- struct{}{}
+			defer func() { <-instSem }()
+			out[i] = runInstance(ld, spec, jobs[i].r, jobs[i].c, known, &ssaMu)
+		}(i)
+	}
+	wg.Wait()
 	return out, nil
 }
 
@@ -509,6 +545,7 @@ func runInstance(ld *sym.Loaded, spec *Spec, rs *RunSpec, args []int64, known ma
 	e.Known = known
 	e.S.ShareOn = rs.Shares
 	e.UFFresh = rs.UFFresh
+	e.TwoRun, e.TwoRunOnly = rs.TwoRun, rs.TwoRunOnly
 	e.DecSegs = spec.DecSegs
 	e.LockRules = spec.LockRules
 	e.PruneIf = spec.PruneIf || rs.PruneIf
@@ -892,6 +929,7 @@ func interpReplay(ld *sym.Loaded, spec *Spec, rs *RunSpec, args []int64, vals ma
 	e.Known = known
 	e.DecSegs = spec.DecSegs
 	e.Concrete = vals
+	e.TwoRun, e.TwoRunOnly = rs.TwoRun, rs.TwoRunOnly
 	if rs.Unwind > 0 {
 		e.Unwind = rs.Unwind
 	}
